@@ -537,6 +537,7 @@ pub fn run(cx: &mut Ctx) {
     }
     let _ = Src::loc::<syn::Expr>;
     lexical_rules(cx, &up, &w);
+    crate::rules::float_rules::exact_integer_test(cx, "C11.N1");
 }
 
 /// C11.K1 / F1 / F2: the rendering is re-lexed into the tokens that were meant.
